@@ -261,7 +261,8 @@ def build_query(identifier, session, query=None):
             val = str(val)
 
         # Part 4, C.2.2.2.1 Single Value Matching
-        if vr != "SQ" and val is not None:
+        #   UI may be a list of UIDs, which is handled below
+        if vr not in ("SQ", "UI") and val is not None:
             if vr in _text_vr and ("*" in val or "?" in val):
                 pass
             elif vr in ["DA", "TM", "DT"] and "-" in val:
@@ -668,13 +669,14 @@ def _search_wildcard(elem, session, query=None):
     if value is None or value == "":
         value = "*"
 
-    value = value.replace("*", "%")
-    value = value.replace("?", "_")
+    # SQLite's GLOB is case-sensitive and uses the same '*' and '?' wild cards,
+    #   the only other special character is '[' (start of a character set)
+    value = value.replace("[", "[[]")
 
     if not query:
         query = session.query(Instance)
 
-    return query.filter(attr.like(value))
+    return query.filter(attr.op("GLOB")(value))
 
 
 # Database table setup stuff
